@@ -2449,12 +2449,27 @@ def _m_range(interp, *args):
 
 
 def _m_enumerate(interp, v, start=0):
+    v = _seqs_of(interp, [v])[0]
     if isinstance(v, SSeq) and not z3.is_int_value(z3.simplify(v.len)):
         return SSeq(v.len, lambda i: (wrap(i + start), v.at(i)), name=f"enumerate({v.name})")
     return [(i + start, x) for i, x in enumerate(interp.iterate(v))]
 
 
+def _seqs_of(interp, seqs):
+    """heap stand-ins with __iter__ (an onnx_ir Shape of symbolic rank) take part in zip / enumerate as their element sequence"""
+    out = []
+    for q in seqs:
+        if isinstance(q, SObj):
+            try:
+                q = as_seq(interp, q)
+            except Undecided:
+                pass
+        out.append(q)
+    return out
+
+
 def _m_zip(interp, *seqs, strict=False):
+    seqs = _seqs_of(interp, seqs)
     if any(isinstance(s, SSeq) and not z3.is_int_value(z3.simplify(s.len)) for s in seqs):
         ss = [as_seq(interp, s) for s in seqs]
         n = ss[0].len
